@@ -1011,6 +1011,17 @@ class Machine:
         else:
             raise Unmodelled("movq form")
 
+    def i_movd(self, s, ins):
+        """movd between a 32-bit general-purpose register and the low dword of an xmm register (upper bits zeroed)"""
+        src, dst = ins.ops
+        if src.kind == "reg" and dst.kind == "xmm" and src.size == 32:
+            s.xmm[dst.reg] = simp(z3.ZeroExt(32, s.get(src)))
+        elif src.kind == "xmm" and dst.kind == "reg" and dst.size == 32:
+            s.set(dst, simp(z3.Extract(31, 0, s.xmm[src.reg])))
+        else:
+            raise Unmodelled("movd form")
+        s.ip += 1
+
     def i_movq(self, s, ins):
         src, dst = ins.ops
         if src.kind == "xmm" or dst.kind == "xmm":
